@@ -600,3 +600,113 @@ func (w *World) posOrdinal(fn *ssa.Function, x *ssa.BinOp) string {
 	}
 	return ""
 }
+
+func init() {
+	reg("C16-R6", "releasing locks touches the caller's entries only: in LockManager.Unlock the exclusive entry of a row is deleted only on the side on which its owner equals the caller's transaction id; the shared list of a row is replaced only by the result of removeTxnID(list, caller id); removeTxnID drops an element only on the side on which it equals the id; the loop over the released rows has no early exit", func(w *World, r *Report) {
+		a := w.A()
+		xt := w.Field("storage/access", "LockManager", "exclusiveLockTable")
+		st := w.Field("storage/access", "LockManager", "sharedLockTable")
+		getID := w.MethodObj("storage/access", "Transaction", "GetTransactionID")
+		fn := w.SSA(a.LMUnlock)
+		isXLookup := func(v ssa.Value) bool {
+			l, ok := v.(*ssa.Lookup)
+			return ok && fieldLoadOf(l.X, xt)
+		}
+		// edges on which owner != caller are kept, the owner == caller edge is removed
+		ownerIsMe := func(b *ssa.BasicBlock, succ int) bool {
+			i := blockIf(b)
+			if i == nil {
+				return false
+			}
+			base, neg := condBase(i.Cond)
+			bo, ok := base.(*ssa.BinOp)
+			if !ok || (bo.Op != token.EQL && bo.Op != token.NEQ) {
+				return false
+			}
+			own := func(x ssa.Value) bool { return DependsOn(x, isXLookup) }
+			me := func(x ssa.Value) bool { return DependsOn(x, IsCallTo(getID)) }
+			if !((own(bo.X) && me(bo.Y)) || (own(bo.Y) && me(bo.X))) {
+				return false
+			}
+			binTrue := (succ == 0) != neg
+			return binTrue == (bo.Op == token.EQL)
+		}
+		isDelX := func(in ssa.Instruction) bool {
+			c, ok := in.(*ssa.Call)
+			if !ok {
+				return false
+			}
+			b, ok := c.Call.Value.(*ssa.Builtin)
+			return ok && b.Name() == "delete" && fieldLoadOf(c.Call.Args[0], xt)
+		}
+		nDel := 0
+		for _, b := range fn.Blocks {
+			for _, in := range b.Instrs {
+				if isDelX(in) {
+					nDel++
+				}
+			}
+		}
+		r.Floor("deletes from exclusiveLockTable in Unlock", nDel, 1)
+		r.Floor("owner tests in Unlock", countCutEdges(fn, []EdgeCut{ownerIsMe}), 1)
+		wit := (&PathQ{Fn: fn, Cut: []EdgeCut{ownerIsMe}, Target: isDelX}).FromEntry()
+		r.Check(wit == nil, "Unlock:exclusive-entry-deleted-only-for-its-owner", "an exclusive entry is deleted only when the caller owns it", "delete reachable without the owner test: "+w.DescribeWitness(fn, wit))
+		// shared list
+		rm := w.FuncObj("storage/access", "removeTxnID")
+		nUpd := 0
+		for _, b := range fn.Blocks {
+			for _, in := range b.Instrs {
+				mu, ok := in.(*ssa.MapUpdate)
+				if !ok || !fieldLoadOf(mu.Map, st) {
+					continue
+				}
+				nUpd++
+				c, isCall := stripConv(mu.Value).(*ssa.Call)
+				good := isCall && CalleeObj(c) == rm && DependsOn(c.Call.Args[1], IsCallTo(getID)) &&
+					DependsOn(c.Call.Args[0], func(x ssa.Value) bool { l, ok := x.(*ssa.Lookup); return ok && fieldLoadOf(l.X, st) })
+				r.Check(good, "Unlock:shared-list-loses-only-the-caller"+itoaOrd(nUpd), "the shared holders of a row are replaced by the same list without the caller", "map update at "+w.InstrPos(in)+" does not store removeTxnID(current list, caller id)")
+			}
+		}
+		r.Floor("sharedLockTable updates in Unlock", nUpd, 1)
+		// removeTxnID
+		rf := w.SSA(rm)
+		var idP *ssa.Parameter
+		for _, p := range rf.Params {
+			if strings.HasSuffix(p.Type().String(), "types.TxnID") {
+				idP = p
+			}
+		}
+		if idP == nil {
+			fatalf("removeTxnID: no TxnID parameter")
+		}
+		eqID := func(b *ssa.BasicBlock, succ int) bool {
+			i := blockIf(b)
+			if i == nil {
+				return false
+			}
+			base, neg := condBase(i.Cond)
+			bo, ok := base.(*ssa.BinOp)
+			if !ok || (bo.Op != token.EQL && bo.Op != token.NEQ) {
+				return false
+			}
+			isP := func(x ssa.Value) bool { return resolveCell(stripConv(x)) == ssa.Value(idP) }
+			if !isP(bo.X) && !isP(bo.Y) {
+				return false
+			}
+			binTrue := (succ == 0) != neg
+			return binTrue == (bo.Op == token.EQL)
+		}
+		var listP *ssa.Parameter
+		for _, p := range rf.Params {
+			if _, ok := p.Type().Underlying().(*types.Slice); ok {
+				listP = p
+			}
+		}
+		isDrop := func(in ssa.Instruction) bool { // list[:i] … list[i+1:] re-slicing of the holder list itself
+			sl, ok := in.(*ssa.Slice)
+			return ok && (sl.Low != nil || sl.High != nil) && listP != nil && resolveCell(sl.X) == ssa.Value(listP)
+		}
+		wit = (&PathQ{Fn: rf, Cut: []EdgeCut{eqID}, Target: isDrop}).FromEntry()
+		r.Check(wit == nil && countCutEdges(rf, []EdgeCut{eqID}) > 0, "removeTxnID:drops-only-the-given-id", "an element is cut out of the holder list only when it equals the given transaction id", "re-slicing reachable without the equality test: "+w.DescribeWitness(rf, wit))
+	})
+}
